@@ -111,7 +111,9 @@ func (s *session) do(idx int, op opRec, made map[string]bool) opResult {
 		r = withTimeout(func() opResult { return errRes(s.env.Reset()) })
 	case "delete":
 		p := fmt.Sprintf("/w/del%d", idx)
-		if op.V != "ok" {
+		if op.V == "huge" {
+			p = "/w/" + strings.Repeat("h", 40000) // the request itself exceeds one packet
+		} else if op.V != "ok" {
 			p = "/w/does-not-exist"
 		}
 		r = withTimeout(func() opResult { return errRes(s.env.Delete(p)) })
@@ -146,6 +148,10 @@ func (s *session) do(idx int, op opRec, made map[string]bool) opResult {
 				cmds = []container.OpenCmd{{Path: fmt.Sprintf("/w/f%d", idx), Flag: os.O_CREATE | os.O_WRONLY, Perm: 0644}}
 			case "bad":
 				cmds = []container.OpenCmd{{Path: "/w/no/such/dir/f", Flag: os.O_CREATE | os.O_WRONLY, Perm: 0644}}
+			case "longbatch": // the request fits into one packet, the per-item errors of the reply do not
+				for j := 0; j < 31; j++ {
+					cmds = append(cmds, container.OpenCmd{Path: "/w/nodir/" + strings.Repeat("p", 1016), Flag: os.O_RDONLY})
+				}
 			case "mixed":
 				cmds = []container.OpenCmd{
 					{Path: fmt.Sprintf("/w/m%da", idx), Flag: os.O_CREATE | os.O_WRONLY, Perm: 0644},
@@ -213,6 +219,8 @@ func (s *session) doExec(idx int, op opRec, code int) opResult {
 		args = []string{"/w"}
 	case "emptyargs":
 		args = nil
+	case "hugearg":
+		args = []string{"/probe/cprobe", nonce, "exit:0", strings.Repeat("A", 40000)}
 	}
 	ctx, cancel := context.WithCancel(context.Background())
 	defer cancel()
